@@ -94,6 +94,9 @@ pub fn replay_case(prop: &str, case: &Value) -> Result<u64, String> {
             let lists = case["detail"].get("lists").and_then(|l| serde_json::from_value(l.clone()).ok());
             let b = Bench::with_lists(tag, uni, ctxs, lists);
             let run = Run::new("replay", "exploration", Tier::Quick, 0);
+            if prop == "C04" {
+                run.types_only.store(true, std::sync::atomic::Ordering::Relaxed);
+            }
             match kind {
                 "filter" => {
                     let e: Expr = serde_json::from_value(case["program"].clone()).map_err(|e| e.to_string())?;
